@@ -16,10 +16,13 @@ Technique: JX in *nan-tracking* mode + 1-induction on the real `while` equation 
 * replay: a concrete f is built as a Hermite interpolant through the finitely many (x, f, f') triples of the solver
   model; the *real* code is executed on it (O2: the real loop body re-traced from the source with that f; the others: the
   real rtsafe_/find_root end to end).
-* tiers: quick = O1-O5 + O6 with K=1; thorough adds O6 with K=2, 3 (K=4 does not finish, see DESIGNED_NOT_REGISTERED).
-* expected on the unchanged tree: O2.step/iterate_stays_finite is VIOLATED (a carry with F == 0 and DF == 0, an iterate exactly
-  at a root with zero slope, passes both safeguards and the Newton step is -0/0 = NaN); its complement
-  O2.step/iterate_finite_unless_at_root_with_zero_slope is discharged, i.e. that carry is the only gap of the induction.
+* O7 pins one real loop step as a FUNCTION of the carry (the bracket invariants of O1-O3 do not): it commutes with
+  f -> -f (xl/xh are ordered by the sign of f, not by position), and the Newton point is taken exactly when it lies strictly
+  between xl and xh in either order (DF != 0, |2F| <= |dxOld DF|), the midpoint only otherwise. O5 also covers roots lying
+  exactly on a bracket end (returned, IFT derivative). reduce_min/max/sum, clamp, integer_pow have nan-tracking rules.
+* tiers: quick = O1-O5, O7 + O6 with K=1; thorough adds O6 with K=2, 3 (K=4 does not finish, see DESIGNED_NOT_REGISTERED).
+* history: before the upstream fix `| (DF == 0.0)` O2.step/iterate_stays_finite was violated (carry with F == 0 and DF == 0:
+  Newton step -0/0 = NaN); O2.step/iterate_finite_unless_at_root_with_zero_slope is its complement.
 """
 import functools
 import math
@@ -201,6 +204,25 @@ NVOPS = {
     'select_n': _nv_select, 'convert_element_type': _nv_convert,
     'stop_gradient': lambda ctx, P_, a: a, 'copy': lambda ctx, P_, a: a, 'copy_p': lambda ctx, P_, a: a,
 }
+
+
+def _nv_clamp(ctx, P_, lo, x, hi):
+    return NVOPS['min'](ctx, P_, NVOPS['max'](ctx, P_, x, lo), hi)
+
+
+def _nv_ipow(ctx, P_, a):
+    y = P_['y']
+    if y < 0:
+        raise jx.JXError('nan-tracking: negative integer_pow')
+    r = 1.0
+    for _ in range(y):
+        r = NVOPS['mul'](ctx, P_, r, a)
+    return nv(r)
+
+
+NVOPS.update({'clamp': _nv_clamp, 'integer_pow': _nv_ipow, 'square': lambda ctx, P_, a: NVOPS['mul'](ctx, P_, a, a)})
+# reductions (np.min / np.max / np.sum of a bracket array): the shared reduction loop with the nan-tracking binary op
+NVRED = {'reduce_min': ('min', None), 'reduce_max': ('max', None), 'reduce_sum': ('add', 0.0)}
 STRUCT = ('slice', 'squeeze', 'broadcast_in_dim', 'reshape', 'transpose', 'rev', 'expand_dims', 'concatenate')
 
 
@@ -267,6 +289,9 @@ def _dispatch(p, ctx, eqn, iv):
         return jx.ew(lambda *a: f(ctx, eqn.params, *a), *iv)
     if p in STRUCT:
         return jx.OTHER[p](ctx, eqn, iv)
+    if p in NVRED:
+        op, init = NVRED[p]
+        return jx._reduce(lambda a, b: NVOPS[op](ctx, eqn.params, a, b), init)(ctx, eqn, iv)
     raise jx.JXError('C17 nan-tracking mode has no rule for primitive %s' % p)
 
 
@@ -347,25 +372,30 @@ class Enc:
        ('contract',)  result = init if the loop condition is false at entry, else a fresh EXIT carry
        ('unroll', K)  K real bodies (claim restricted to max_iters <= K by the caller)"""
 
-    def __init__(self, loop=('contract',), tracer=None, extra_in=()):
-        self.ctx = nv_ctx()
+    def __init__(self, loop=('contract',), tracer=None, extra_in=(), ctx=None, inp=None, tag='E_'):
+        """ctx / inp: share the solver context (and so the applications of f) and the input terms with another encoding"""
+        self.ctx = ctx or nv_ctx()
         self.cj = (tracer or trace_rtsafe)()
         self.loop = loop
+        self.tag = tag
         self.inp = {}
         args = []
         names = tuple(extra_in) + INAMES
         for nm in names:
             if nm == 'maxit':
-                v = z3.Int(nm)
+                v = inp[nm] if inp else z3.Int(nm)
                 args.append(box(v))
             else:
-                v = z3.Real(nm)
+                v = inp[nm] if inp else z3.Real(nm)
                 args.append(box(NV(v, False)))
             self.inp[nm] = v
+        saved_mode = self.ctx.while_mode.get('default')
         self.ctx.while_mode['default'] = ('hook', self._hook)
         self.states = []
         self.conds = []
         self.outs = jx.eval_jaxpr(self.ctx, self.cj.jaxpr, self.cj.consts, *args)
+        if saved_mode is not None:
+            self.ctx.while_mode['default'] = saved_mode
 
     def cond(self, carry):
         return tob(unbox(jx.eval_jaxpr(self.ctx, self.cj_cond.jaxpr, self.cj_cond.consts, *self.cc, *carry)[0]))
@@ -379,7 +409,7 @@ class Enc:
         self.cj_cond, self.cj_body = Pm['cond_jaxpr'], Pm['body_jaxpr']
         c0 = self.cond(carry)
         if self.loop[0] == 'contract':
-            self.exit = fresh_like(ctx, eqn, 'E_')
+            self.exit = fresh_like(ctx, eqn, self.tag)
             self.c0 = c0
             return [box(nv_ite(c0, unbox(e), unbox(i0))) for e, i0 in zip(self.exit, carry)]
         K = self.loop[1]
@@ -1174,15 +1204,87 @@ def ift_goals(E, fam, theta, x, d):
                 ('nan_root_has_nan_derivative', IMP(E.N(x), E.N(d)))]
 
 
+def endpoint_ift_goals(E, fam, theta, x, d, b0, b1):
+    """an end point of the bracket is an exact root of f(., theta): it is returned and the derivative is still the IFT value"""
+    z0 = EQ(E, _partials(E, fam, b0, theta)[0], 0.0)
+    z1 = EQ(E, _partials(E, fam, b1, theta)[0], 0.0)
+    ok, g = ift_goals(E, fam, theta, x, d)
+    fin_, eq_ = concl_of(g[0][1]), concl_of(g[1][1])
+    right, left = z1, v_and(z0, v_not(z1))
+    return [
+        ('right_end_root.returned', IMP(right, E.eqg(x, b1))),
+        ('right_end_root.derivative_is_ift_value', IMP(v_and(right, ok), v_and(fin_, eq_))),
+        ('left_end_root.returned', IMP(left, E.eqg(x, b0))),
+        ('left_end_root.derivative_is_ift_value', IMP(v_and(left, ok), v_and(fin_, eq_))),
+    ]
+
+
+def o5_concrete(vals, fam, fam_f, text, goals, snap_end=False):
+    """jax.grad through the REAL find_root on the family's formula with the uninterpreted functions replaced by Hermite
+    interpolants of the model. snap_end: make the end-point root of the model an exact root in floating point (the value
+    k(theta), resp. m(b), is set to minus the rounded other term, a perturbation of the model by rounding only)"""
+    S = _S()
+    th = float(vals['theta'])
+    b0, b1, x0 = float(vals['b0']), float(vals['b1']), float(vals['x0'])
+    names = {'separable': ('g', 'h', 'k'), 'composite': ('u', 'm')}[fam]
+    nodes = {n: triples_from_model(vals, name=n) for n in names}
+    fns = {n: hermite(nodes[n]) for n in names}
+    snapped = None
+    if snap_end:
+        def fval(b):
+            if fam == 'separable':
+                return float(fns['g'](b)) * float(fns['h'](th)), float(fns['k'](th))
+            return float(fns['u'](b * th)), float(fns['m'](b))
+        cand = []
+        for b in (b1, b0):
+            a_, c_ = fval(b)
+            cand.append((abs(a_ + c_) / (1e-300 + abs(a_) + abs(c_) + 1e-30), b, a_))
+        cand.sort(key=lambda t: t[0])
+        if cand[0][0] <= 1e-9 or (cand[0][0] < 1e-6):
+            _, b, a_ = cand[0]
+            nm, at = ('k', th) if fam == 'separable' else ('m', b)
+            nodes[nm] = [(x_, (-a_ if x_ == at else y_), d_) for x_, y_, d_ in nodes[nm]]
+            fns[nm] = hermite(nodes[nm])
+            snapped = dict(function=nm, at=at, value=-a_, end=b)
+
+    def conc_uf(x, name='f', order=0):
+        assert order == 0
+        return fns[name](x)
+    real_uf = jx.uf
+    jx.uf = conc_uf
+    try:
+        f2 = lambda x, t: fam_f(x, t)
+        sett = S.Settings(200, 1e-13, 0.0)
+
+        def root_of(t):
+            return S.find_root(lambda x: f2(x, t), x0, jnp.array([b0, b1]), sett)[0]
+        xr, dr = jax.value_and_grad(root_of)(jnp.float64(th))
+        xr, dr = float(xr), float(dr)
+        cfn = {}
+        for n in names:
+            cfn[(n, 0)] = (lambda n: lambda v: float(fns[n](jnp.float64(v))))(n)
+            cfn[(n, 1)] = (lambda n: lambda v: float(jax.grad(fns[n])(jnp.float64(v))))(n)
+        Ec = ConEnv(cfn)
+        cn = goals(Ec, th, xr, dr, b0, b1)
+        fx = float(jax.grad(f2, 0)(jnp.float64(xr), jnp.float64(th))) if math.isfinite(xr) else float('nan')
+        ft = float(jax.grad(f2, 1)(jnp.float64(xr), jnp.float64(th))) if math.isfinite(xr) else float('nan')
+    finally:
+        jx.uf = real_uf
+    return True, cn, True, dict(theta=th, x0=x0, bracket=[b0, b1], settings='max_iters=200, x_tol=1e-13, r_tol=0', real_root=xr, real_grad=dr,
+                                f_x=fx, f_theta=ft, ift=(-ft / fx if fx else None), nodes={n: fns[n].nodes for n in names}, snapped=snapped,
+                                how='jax.grad through the real find_root on %s with Hermite interpolants of the model' % text)
+
+
 @obligation(P, 'O5.derivative', cap=200)
 def o5(h):
     """jax.grad through find_root (custom_root tangent solve y/g(1.0)) equals -f_theta/f_x at the returned point; the
-    forward loop is an arbitrary state transformer (fresh exit carry), so the identity holds for whatever is returned"""
+    forward loop is an arbitrary state transformer (fresh exit carry inside the bracket), so the identity holds for
+    whatever is returned; separately: an end point that is an exact root is returned and has the IFT derivative"""
     common(h)
     finite_inputs_note(h)
-    S = _S()
-    h.bounds('O5: two families of functions of (x, theta) built from uninterpreted C1 functions: g(x)h(theta)+k(theta) and u(x theta)+m(x); all values and slopes are free reals; f_x != 0 at the returned point; '
-             'bracket ordered with a strict sign change of f(., theta) (only so that a counterexample can be replayed on a run that returns a root: the identity itself is proved for an arbitrary returned point)')
+    h.bounds('O5: two families of functions of (x, theta) built from uninterpreted C1 functions: g(x)h(theta)+k(theta) and u(x theta)+m(x); all values and slopes are free reals; f_x != 0 at the returned point',
+             'O5 interior queries: bracket ordered with a strict sign change of f(., theta) (only so that a counterexample can be replayed on a run that returns a root); the loop result is any point of the bracket (invariant conjunct iterate_in_original_bracket) or NaN',
+             'O5 end-point queries: f(b, theta) == 0 exactly at an end b of the bracket (either end, either bracket order, any guess and settings); no loop contract is involved (the loop does not run)')
     h.outside('O5: second and higher derivatives; vector-valued parameters (theta is one real; linearity of the rule in the direction is JAX\'s)')
     for fam, (fam_f, text) in FAMILIES.items():
         fn = _grad_fn(fam_f)
@@ -1191,44 +1293,144 @@ def o5(h):
         E = SymEnv(enc.ctx)
         x, d = unbox(enc.outs[0]), unbox(enc.outs[1])
         theta = NV(enc.inp['theta'], False)
-        ok, named = ift_goals(E, fam, theta, x, d)
-        # replayability: the problem is bracketed (strict sign change, ordered bracket), so that the real run returns a root
         b0, b1 = NV(enc.inp['b0'], False), NV(enc.inp['b1'], False)
+        ok, named = ift_goals(E, fam, theta, x, d)
+        named_end = endpoint_ift_goals(E, fam, theta, x, d, b0, b1)
+        # replayability: the problem is bracketed (strict sign change, ordered bracket), so that the real run returns a root
         br = v_and(LT(E, MUL(E, _partials(E, fam, b0, theta)[0], _partials(E, fam, b1, theta)[0]), 0.0), LT(E, b0, b1))
+        er = nv(unbox(enc.exit[0]))
+        in_bracket = z3.Implies(enc.c0, tob(v_or(er.n, BETWEEN(E, er, b0, b1))))
         inputs = enc.model_inputs([('E_', enc.exit)])
-        assumes = enc.side() + [br]
+        side = enc.side()
+        prove_all(h, fam + '.', side + [br, in_bracket], named, inputs,
+                  lambda vals, fam=fam, fam_f=fam_f, text=text: o5_concrete(vals, fam, fam_f, text, lambda Ec, th, xr, dr, b0_, b1_: ift_goals(Ec, fam, th, xr, dr)[1]),
+                  order=('nlsat', 'core'))
+        prove_all(h, fam + '.', side, named_end, inputs,
+                  lambda vals, fam=fam, fam_f=fam_f, text=text: o5_concrete(vals, fam, fam_f, text, lambda Ec, th, xr, dr, b0_, b1_: endpoint_ift_goals(Ec, fam, th, xr, dr, b0_, b1_), snap_end=True),
+                  order=('nlsat', 'core'))
 
-        def concrete_named(vals, fam=fam, fam_f=fam_f):
-            th = float(vals['theta'])
-            names = {'separable': ('g', 'h', 'k'), 'composite': ('u', 'm')}[fam]
-            fns = {n: hermite(triples_from_model(vals, name=n)) for n in names}
 
-            def conc_uf(x, name='f', order=0):
-                assert order == 0
-                return fns[name](x)
-            # the family's formula with the uninterpreted functions replaced by the Hermite interpolants of the model
-            real_uf = jx.uf
-            jx.uf = conc_uf
-            try:
-                f2 = lambda x, t: fam_f(x, t)
-                sett = S.Settings(200, 1e-13, 0.0)
-                b0, b1, x0 = float(vals['b0']), float(vals['b1']), float(vals['x0'])
+# =========================================================================================== O7 orientation symmetry, Newton acceptance
+def _negf(x):
+    return -jx.uf(x, 'f', 0)
 
-                def root_of(t):
-                    return S.find_root(lambda x: f2(x, t), x0, jnp.array([b0, b1]), sett)[0]
-                xr, dr = jax.value_and_grad(root_of)(jnp.float64(th))
-                xr, dr = float(xr), float(dr)
-                cfn = {}
-                for n in names:
-                    cfn[(n, 0)] = (lambda n: lambda v: float(fns[n](jnp.float64(v))))(n)
-                    cfn[(n, 1)] = (lambda n: lambda v: float(jax.grad(fns[n])(jnp.float64(v))))(n)
-                Ec = ConEnv(cfn)
-                okc, cn = ift_goals(Ec, fam, th, xr, dr)
-                fx = float(jax.grad(f2, 0)(jnp.float64(xr), jnp.float64(th))) if math.isfinite(xr) else float('nan')
-                ft = float(jax.grad(f2, 1)(jnp.float64(xr), jnp.float64(th))) if math.isfinite(xr) else float('nan')
-            finally:
-                jx.uf = real_uf
-            return True, cn, True, dict(theta=th, x0=x0, bracket=[b0, b1], settings='max_iters=200, x_tol=1e-13, r_tol=0', real_root=xr, real_grad=dr,
-                                        f_x=fx, f_theta=ft, ift=(-ft / fx if fx else None), nodes={n: fns[n].nodes for n in names},
-                                        how='jax.grad through the real find_root on %s with Hermite interpolants of the model' % text)
-        prove_all(h, fam + '.', assumes, named, inputs, concrete_named, order=('nlsat', 'core'))
+
+def SAME(E, a, b):
+    return v_or(v_and(E.N(a), E.N(b)), E.eqg(a, b))
+
+
+def NEG(E, a):
+    if E.concrete:
+        return -float(a)
+    a = nv(a)
+    return NV(-toz(a.r) if isz(a.r) else -a.r, a.n)
+
+
+def mirror(E, C):
+    """the same state seen with -f: residual and slope negated, the ends of the sign-oriented bracket swapped"""
+    M = dict(C)
+    M['F'], M['DF'], M['xl'], M['xh'] = NEG(E, C['F']), NEG(E, C['DF']), C['xh'], C['xl']
+    return M
+
+
+def beq(a, b):
+    if num(a) and num(b):
+        return bool(a) == bool(b)
+    return tob(a) == tob(b)
+
+
+def prologue_symmetry_goals(E, I, C, Cm, Cr):
+    """C: start carry for (f, [b0,b1]); Cm: for (-f, [b0,b1]); Cr: for (f, [b1,b0])"""
+    fb0, fb1, BR, EP = bracket_facts(E, I)
+    nz = v_and(FIN(E, fb0), v_not(EQ(E, fb0, 0.0)))
+    IN = v_and(BR, v_not(EP))
+    return [
+        ('prologue.negated_function_same_start', IMP(nz, v_and(SAME(E, C['root'], Cm['root']), SAME(E, C['dx'], Cm['dx']), SAME(E, C['dxOld'], Cm['dxOld']),
+                                                                 beq(C['converged'], Cm['converged']), v_eq(C['i'], Cm['i'])))),
+        ('prologue.negated_function_mirrors_residual', IMP(nz, v_and(SAME(E, C['F'], NEG(E, Cm['F'])), SAME(E, C['DF'], NEG(E, Cm['DF']))))),
+        ('prologue.negated_function_swaps_bracket_ends', IMP(nz, v_and(EQ(E, C['xl'], Cm['xh']), EQ(E, C['xh'], Cm['xl'])))),
+        ('prologue.reversed_bracket_same_oriented_bracket', IMP(IN, v_and(EQ(E, C['xl'], Cr['xl']), EQ(E, C['xh'], Cr['xh']), EQ(E, C['dx'], Cr['dx']),
+                                                                         EQ(E, C['dxOld'], Cr['dxOld']), beq(C['converged'], Cr['converged'])))),
+    ]
+
+
+def step_function_goals(E, C, Cn, Cmn):
+    """C: any finite carry; Cn: after one real body with f; Cmn: after one real body with -f from mirror(C)"""
+    fin = FIN(E, *[C[k] for k in CARRY[:7]])
+    root, F, DF, xl, xh, dxo = C['root'], C['F'], C['DF'], C['xl'], C['xh'], C['dxOld']
+    dfnz = v_not(EQ(E, DF, 0.0))
+    step = DIV(E, NEG(E, F), DF)
+    xN = ADD(E, root, step)
+    lo, hi = MIN(E, xl, xh), MAX(E, xl, xh)
+    strictly_inside = v_and(LT(E, lo, xN), LT(E, xN, hi))
+    outside = v_or(LT(E, xN, lo), LT(E, hi, xN))
+    slow = LT(E, ABS(E, MUL(E, dxo, DF)), ABS(E, MUL(E, 2.0, F)))
+    half = MUL(E, 0.5, SUB(E, xh, xl))
+    mid = ADD(E, xl, half)
+    fnz = v_not(EQ(E, Cn['F'], 0.0))
+    return [
+        ('step.mirror_same_new_iterate', IMP(fin, E.eqg(Cn['root'], Cmn['root']))),
+        ('step.mirror_same_step_size_and_flags', IMP(fin, v_and(E.eqg(ABS(E, Cn['dx']), ABS(E, Cmn['dx'])), E.eqg(Cn['dxOld'], Cmn['dxOld']),
+                                                                  beq(Cn['converged'], Cmn['converged']), v_eq(Cn['i'], Cmn['i'])))),
+        ('step.mirror_negated_residual', IMP(fin, v_and(E.eqg(Cn['F'], NEG(E, Cmn['F'])), E.eqg(Cn['DF'], NEG(E, Cmn['DF']))))),
+        ('step.mirror_new_bracket_is_the_swap', IMP(v_and(fin, fnz), v_and(E.eqg(Cn['xl'], Cmn['xh']), E.eqg(Cn['xh'], Cmn['xl'])))),
+        ('step.newton_taken_when_strictly_inside_either_order_and_fast', IMP(v_and(fin, dfnz, strictly_inside, v_not(slow)),
+                                                                               v_and(E.eqg(Cn['root'], xN), E.eqg(Cn['dx'], step)))),
+        ('step.bisection_taken_only_otherwise', IMP(v_and(fin, v_or(v_not(dfnz), outside, slow)), v_and(E.eqg(Cn['root'], mid), E.eqg(Cn['dx'], half)))),
+    ]
+
+
+@obligation(P, 'O7.orientation_symmetry_newton_acceptance', cap=240)
+def o7(h):
+    """one real loop step, pinned as a function of the carry: (i) it commutes with f -> -f (residual/slope negated, ends of
+    the sign-oriented bracket swapped): same new iterate, |dx|, flags, swapped new bracket; same at the prologue, and
+    the reversed input bracket gives the same oriented bracket; (ii) the Newton point is taken exactly when it lies
+    strictly between xl and xh IN EITHER ORDER with DF != 0 and |2F| <= |dxOld DF|, the midpoint only otherwise"""
+    common(h)
+    finite_inputs_note(h)
+    h.bounds('O7 step queries: ANY finite carry (root, dx, dxOld, F, DF, xl, xh of any order, converged, i) - the invariant is not assumed; the value/slope of f at the new iterate are free',
+             'O7 prologue queries: all finite inputs; f(bracket[0]) != 0 for the f -> -f queries (at an end-point root both runs converge with the same unswapped bracket), strict sign change without end-point root for the reversed bracket')
+    h.outside('O7: a Newton point exactly on an end of the bracket (product test == 0: accepted by the code, left open by the acceptance goals); '
+              'the swap of the new bracket when the new residual is exactly 0 (the tie F == 0 goes to xh for f and for -f)')
+    enc = Enc()
+    encm = Enc(tracer=lambda: trace_rtsafe(_negf), ctx=enc.ctx, inp=enc.inp, tag='M_')
+    encr = Enc(ctx=enc.ctx, inp=dict(enc.inp, b0=enc.inp['b1'], b1=enc.inp['b0']), tag='R_')
+    E = SymEnv(enc.ctx)
+    I = {k: (NV(v, False) if k != 'maxit' else v) for k, v in enc.inp.items()}
+    named = prologue_symmetry_goals(E, I, enc.carry_dict(enc.init), encm.carry_dict(encm.init), encr.carry_dict(encr.init))
+    inputs = enc.model_inputs()
+
+    def conc_prologue(vals):
+        Iv = inputs_floats(vals)
+        f = hermite(triples_from_model(vals))
+        rc, rcm = RealCode(f), RealCode(lambda x: -f(x))
+        C0 = carry_from_jax(rc.prologue(Iv)[2])
+        Cm0 = carry_from_jax(rcm.prologue(Iv)[2])
+        Cr0 = carry_from_jax(rc.prologue(dict(Iv, b0=Iv['b1'], b1=Iv['b0']))[2])
+        return True, prologue_symmetry_goals(rc.env(), Iv, C0, Cm0, Cr0), True, dict(inputs=Iv, f_nodes_x_f_df=f.nodes, start_f=C0, start_minus_f=Cm0, start_reversed_bracket=Cr0,
+                                                                                        how='real prologue of rtsafe_ with f, with -f, and with the reversed bracket (f = Hermite interpolant of the model)')
+    prove_all(h, '', enc.side(), named, inputs, conc_prologue)
+
+    # ---- one step from an arbitrary carry
+    C = fresh_like(enc.ctx, enc.eqn, '')
+    Cd = enc.carry_dict(C)
+    Md = mirror(E, Cd)
+    M = [box(Md[k]) for k in CARRY]
+    Cn, Cmn = enc.carry_dict(enc.body(C)), encm.carry_dict(encm.body(M))
+    named = step_function_goals(E, Cd, Cn, Cmn)
+    inputs = enc.model_inputs([('', C)])
+
+    def conc_step(vals):
+        Iv = inputs_floats(vals)
+        Cf = carry_floats(vals, '')
+        f = hermite(triples_from_model(vals))
+        rc, rcm = RealCode(f), RealCode(lambda x: -f(x))
+        Ec = rc.env()
+        bc = [jnp.float64(Iv['xtol']), jnp.float64(Iv['rtol'])]
+        Cn_ = carry_from_jax(rc.body(bc, carry_to_jax(Cf)))
+        Mf = mirror(Ec, Cf)
+        Cmn_ = carry_from_jax(rcm.body(bc, carry_to_jax(Mf)))
+        return True, step_function_goals(Ec, Cf, Cn_, Cmn_), True, dict(settings=dict(x_tol=Iv['xtol'], r_tol=Iv['rtol']), f_nodes_x_f_df=f.nodes, carry=Cf, after_real_body_with_f=Cn_,
+                                                                          mirrored_carry=Mf, after_real_body_with_minus_f=Cmn_,
+                                                                          how='real loop body of rtsafe_ re-traced with f and with -f (f = Hermite interpolant of the model) executed on the carry and on its mirror image')
+    prove_all(h, '', enc.side(), named, inputs, conc_step, order=('nlsat', 'core'))
